@@ -110,6 +110,8 @@ def build(case: dict[str, Any], d: Path, job: dict[str, Any]) -> Any:
             inj["sync"] = case["sync"]
         if case.get("flavour"):
             inj["flavour"] = case["flavour"]
+    if case.get("dbglitch"):
+        inj = dict(inj or {"point": "-", "how": "Return", "n": 0, "where": "pre"}, pings=8)
     if case.get("nested") and c["kind"] == "Script":
         inj = dict(inj or {"point": "-", "how": "Return", "n": 0, "where": "pre"}, nested=str(d / "nart"))
     kw: dict[str, Any] = dict(
@@ -359,6 +361,53 @@ def arm_ctrl_c_in_db_close(sync: str) -> None:
     DBHandler.disconnect = disconnect  # type: ignore[method-assign]
 
 
+def arm_db_glitch(k: int) -> None:
+    """The run's messages are written by the database writer task; attempts 2 .. 1+k of its INSERTs into
+    scan_result fail with sqlite's "database or disk is full" (a transient condition: the next attempt works)."""
+    import aiosqlite
+    from gallia.db.handler import DBHandler
+
+    orig = DBHandler.connect
+    seen = {"n": 0}
+
+    async def connect(self: Any) -> None:
+        await orig(self)
+        conn = self.connection
+        real_execute = conn.execute
+
+        async def execute(sql: str, *a: Any, **kw: Any) -> Any:
+            if "scan_result" in sql and "INSERT" in sql.upper():
+                seen["n"] += 1
+                if 2 <= seen["n"] <= 1 + k:
+                    e = aiosqlite.OperationalError("database or disk is full")
+                    e.sqlite_errorcode = 13  # type: ignore[attr-defined]
+                    e.sqlite_errorname = "SQLITE_FULL"  # type: ignore[attr-defined]
+                    raise e
+            return await real_execute(sql, *a, **kw)
+
+        conn.execute = execute  # type: ignore[method-assign]
+
+    DBHandler.connect = connect  # type: ignore[method-assign]
+
+
+WATCHDOG = {"fired": False}
+
+
+def arm_hang_watchdog(seconds: float) -> None:
+    """A run that does not end by itself is interrupted like a user would do it (Ctrl-C) so that it can still be
+    observed; the case then shows up with the exit code of an interrupted run."""
+    import threading
+
+    def fire() -> None:
+        WATCHDOG["fired"] = True
+        os.kill(os.getpid(), signal.SIGINT)
+
+    t = threading.Timer(seconds, fire)
+    t.daemon = True
+    t.start()
+    WATCHDOG["timer"] = t  # type: ignore[assignment]
+
+
 def run_entry_point(cmd: Any) -> tuple[str, Any]:
     try:
         return ("return", asyncio.run(cmd.entry_point()))
@@ -375,8 +424,17 @@ def one_case(case: dict[str, Any], job: dict[str, Any], cap: Capture) -> tuple[d
     c15_cmds.PHASES.clear()
     cap.records.clear()
     cmd = build(case, d, job)
+    if case.get("dbglitch"):
+        arm_db_glitch(int(case["dbglitch"]))
+        arm_hang_watchdog(25.0)
     status = run_entry_point(cmd)
+    if "timer" in WATCHDOG:
+        WATCHDOG["timer"].cancel()  # type: ignore[attr-defined]
     o = observe(case, d, cmd, status, cap)
+    if case.get("dbglitch"):
+        o.setdefault("_raw", {})["hang_watchdog_fired"] = WATCHDOG["fired"]
+        if WATCHDOG["fired"]:
+            o["escaped"] = "Hang"  # the run did not end within 25 s and was interrupted from outside
     cleanup(cmd)
     return o, status
 
